@@ -66,55 +66,59 @@ func buildDriver(e *Env, specs []PkgSpec, race bool) (string, string, []PkgSpec,
 		why string
 	}
 	results := make([]result, len(specs))
-	var wg sync.WaitGroup
-	work := make(chan int)
+	// goag is not safe for concurrent use inside one process (shared buffers in its
+	// rendering pipeline): generation is spread over child processes instead.
+	type prepIn struct {
+		Name string         `json:"name"`
+		Raw  string         `json:"raw"`
+		Cfg  inproc.Config  `json:"cfg"`
+		Meta map[string]any `json:"meta"`
+	}
 	nw := e.NShards
+	if nw > len(specs) {
+		nw = len(specs)
+	}
+	self, _ := os.Executable()
+	var wg sync.WaitGroup
+	var mu sync.Mutex
 	for w := 0; w < nw; w++ {
-		wg.Add(1)
-		go func(w int) {
-			defer wg.Done()
-			chk := inproc.NewChecker()
-			for i := range work {
-				s := specs[i]
-				raw := s.Raw
-				if raw == nil {
-					raw = s.Doc.JSON()
-				}
-				cfg := s.Cfg
-				cfg.Package = s.Name
-				out := filepath.Join(root, "pkgs", s.Name)
-				wd := filepath.Join(root, "work", s.Name)
-				os.MkdirAll(out, 0o755)
-				os.MkdirAll(wd, 0o755)
-				oc := inproc.Generate(raw, cfg, wd, out)
-				if oc.Panic != "" || oc.Err != nil {
-					os.RemoveAll(out)
-					results[i] = result{false, "rejected: " + firstWords(fmtErr(oc.Err)+oc.Panic, 10)}
-					continue
-				}
-				pkg, probs := chk.Check(out)
-				if len(probs) > 0 || pkg.Types == nil {
-					os.RemoveAll(out)
-					results[i] = result{false, "does not compile: " + normalizeMsg(problemsString(probs))}
-					continue
-				}
-				if err := registry.Write(out, pkg.Types); err != nil {
-					os.RemoveAll(out)
-					results[i] = result{false, "registry: " + err.Error()}
-					continue
-				}
-				os.WriteFile(filepath.Join(root, "specs", s.Name+".json"), raw, 0o644)
-				meta := map[string]any{"config": cfg, "meta": s.Meta}
-				bs, _ := json.Marshal(meta)
-				os.WriteFile(filepath.Join(root, "specs", s.Name+".cfg.json"), bs, 0o644)
-				results[i] = result{true, ""}
+		var batch []prepIn
+		var idx []int
+		for i, s := range specs {
+			if i%nw != w {
+				continue
 			}
-		}(w)
+			raw := s.Raw
+			if raw == nil {
+				raw = s.Doc.JSON()
+			}
+			batch = append(batch, prepIn{Name: s.Name, Raw: string(raw), Cfg: s.Cfg, Meta: s.Meta})
+			idx = append(idx, i)
+		}
+		inFile := filepath.Join(root, fmt.Sprintf("prep-in-%d.json", w))
+		outFile := filepath.Join(root, fmt.Sprintf("prep-out-%d.json", w))
+		bs, _ := json.Marshal(batch)
+		os.WriteFile(inFile, bs, 0o644)
+		wg.Add(1)
+		go func(w int, idx []int) {
+			defer wg.Done()
+			cmd := exec.Command(self, "prep", root, inFile, outFile)
+			out, err := cmd.CombinedOutput()
+			var rs []result2
+			if bs, rerr := os.ReadFile(outFile); rerr == nil {
+				json.Unmarshal(bs, &rs)
+			}
+			mu.Lock()
+			defer mu.Unlock()
+			for k, i := range idx {
+				if k < len(rs) {
+					results[i] = result{rs[k].OK, rs[k].Why}
+				} else {
+					results[i] = result{false, fmt.Sprintf("prep worker failed: %v: %s", err, tail(string(out), 300))}
+				}
+			}
+		}(w, idx)
 	}
-	for i := range specs {
-		work <- i
-	}
-	close(work)
 	wg.Wait()
 	os.RemoveAll(filepath.Join(root, "work"))
 	var kept []PkgSpec
@@ -238,4 +242,67 @@ func compiledMain(e *Env, check string, specs []PkgSpec, race bool, timeout time
 		return r, fmt.Errorf("%s", strings.Join(incon, "\n"))
 	}
 	return r, nil
+}
+
+type result2 struct {
+	OK  bool   `json:"ok"`
+	Why string `json:"why"`
+}
+
+// cmdPrep generates, type-checks and registers a batch of specs (child process).
+func cmdPrep(root, inFile, outFile string) int {
+	var batch []struct {
+		Name string         `json:"name"`
+		Raw  string         `json:"raw"`
+		Cfg  inproc.Config  `json:"cfg"`
+		Meta map[string]any `json:"meta"`
+	}
+	bs, err := os.ReadFile(inFile)
+	if err != nil || json.Unmarshal(bs, &batch) != nil {
+		fmt.Fprintln(os.Stderr, "prep: cannot read batch", err)
+		return 2
+	}
+	chk := inproc.NewChecker()
+	results := make([]result2, 0, len(batch))
+	flush := func() {
+		bs, _ := json.Marshal(results)
+		os.WriteFile(outFile, bs, 0o644)
+	}
+	for _, s := range batch {
+		raw := []byte(s.Raw)
+		cfg := s.Cfg
+		cfg.Package = s.Name
+		out := filepath.Join(root, "pkgs", s.Name)
+		wd := filepath.Join(root, "work", s.Name)
+		os.MkdirAll(out, 0o755)
+		os.MkdirAll(wd, 0o755)
+		oc := inproc.Generate(raw, cfg, wd, out)
+		if oc.Panic != "" || oc.Err != nil {
+			os.RemoveAll(out)
+			results = append(results, result2{false, "rejected: " + firstWords(fmtErr(oc.Err)+" "+oc.Panic, 12)})
+			flush()
+			continue
+		}
+		pkg, probs := chk.Check(out)
+		if len(probs) > 0 || pkg.Types == nil {
+			os.RemoveAll(out)
+			results = append(results, result2{false, "does not compile: " + normalizeMsg(problemsString(probs))})
+			flush()
+			continue
+		}
+		if err := registry.Write(out, pkg.Types); err != nil {
+			os.RemoveAll(out)
+			results = append(results, result2{false, "registry: " + err.Error()})
+			flush()
+			continue
+		}
+		os.WriteFile(filepath.Join(root, "specs", s.Name+".json"), raw, 0o644)
+		meta := map[string]any{"config": cfg, "meta": s.Meta}
+		mb, _ := json.Marshal(meta)
+		os.WriteFile(filepath.Join(root, "specs", s.Name+".cfg.json"), mb, 0o644)
+		results = append(results, result2{true, ""})
+		flush()
+	}
+	flush()
+	return 0
 }
